@@ -21,8 +21,9 @@ inconclusive() {
   # infrastructure trouble is never a violation: say so, write minimal evidence, exit 0
   echo "INCONCLUSIVE: property=$ID $1"
   if [ "$ID" != replay ]; then
-    mkdir -p "$VERIF/evidence"
-    cat > "$VERIF/evidence/$ID.json" <<JSON
+    OUT=${VERIF_OUT_DIR:-$VERIF}
+    mkdir -p "$OUT/evidence"
+    cat > "$OUT/evidence/$ID.json" <<JSON
 {"property_id":"$ID","tier":"$ARG","seed":${VERIF_SEED:-1},"level":"other","wall_s":0,"violations":0,
  "coverage":{"explanation":"inconclusive: $1; nothing was explored","exhaustive":false,"evaluations":0,"distinct_nontrivial":0}}
 JSON
